@@ -507,7 +507,10 @@ TEMPS = ['_', '_t', '_u']
 class Gen:
     """Well-formed by construction: references only to rules of lower rank, signers later in a fixed
     permutation, constrained patterns occur in the expanded name of the constraining rule (temporaries:
-    in its own text), option/argument patterns are named patterns occurring in some rule name."""
+    in its own text) or - `foreign` - only in the own text of a rule that refers to it, option/argument
+    patterns are named patterns occurring in some rule name.  Shapes added on top of the random rules, each
+    with a probability of its own: twin definitions, carried constraints, dual definitions, inherited
+    constraints on foreign patterns (_foreign), flat copies of one chain of a rule (_flat)."""
 
     def __init__(self, rng, max_rules=6, max_len=4, signing=0.5, p_forward=0.15, p_redef=0.18, p_twin=0.5, force_twin=0.0, carried=0.0, dual=0.0,
                  foreign=0.0, flat=0.0):
